@@ -27,11 +27,15 @@ func init() {
 			"handled or in the reviewed table (NARROW-1); in readOpen and its callees every read after the header goes through an io.LimitedReader bounded by the " +
 			"announced lengths, whose limit is never re-assigned, decoder loops start with a read whose failure leaves the function, and there is no indexing, " +
 			"unchecked assertion, division or panic (BOUNDED-READ); the minimum OPEN length equals the packed size of header plus fixed fields (MIN-LEN); the " +
-			"advertisement sets handed to the encoders passed validate (VALIDATED).",
+			"advertisement sets handed to the encoders passed validate (VALIDATED); the connection's reader is consumed by exact reads only, never wrapped in a " +
+			"reader that reads ahead, never reassigned (NO-READAHEAD).",
 		NotDecided: "The value-level round trip (that a decoder reads back exactly the intended prefix bits, ASN bytes, communities) is a runtime-value property; the " +
 			"length of the NEXT_HOP payload (declared 4, the value is whatever address the dialer bound: reviewed exception, see DESIGN.md section 6).",
 		Run: runC16,
 		Mutants: []Mutant{
+			{Name: "capability-flag-overwritten", File: "internal/bgp/native/messages.go",
+				Old: "\t\t\tcase af.AFI == 1 && af.SAFI == 1:\n\t\t\t\tret.mp4 = true\n",
+				New: "\t\t\tcase af.AFI == 1:\n\t\t\t\tret.mp4 = af.SAFI == 1\n", Expect: "CAPS-UNION"},
 			{Name: "notification-reader-rewrapped", File: "internal/bgp/native/messages.go",
 				Old: "func readNotification(r io.Reader) error {\n\tvar code uint16",
 				New: "func readNotification(r io.Reader) error {\n\tr = io.MultiReader(r)\n\tvar code uint16", Expect: "NO-READAHEAD"},
@@ -80,6 +84,44 @@ func runC16(p *chk.Prog, r *chk.Report) {
 	c16Negotiated(p, r)
 	c16Tolerant(p, r)
 	c16ReadAhead(p, r)
+	c16CapsSticky(p, r)
+}
+
+// c16CapsSticky: what readOpen reports about the peer's capabilities is the union over the capabilities the OPEN
+// carries: a flag, once set by one capability, is not cleared by a later one (a second multiprotocol capability for the
+// same AFI with another SAFI is legal).
+func c16CapsSticky(p *chk.Prog, r *chk.Report) {
+	x := r.Rule("CAPS-UNION", "B path", "in readCapabilities (and readOptions) the boolean fields of the result (fbasn, mp4, mp6) are only ever assigned the constant true", 3)
+	n := 0
+	for _, name := range []string{"readCapabilities", "readOptions"} {
+		f := p.LookupFunc(natPkg, "", name)
+		if f == nil {
+			continue
+		}
+		res := f.ParamNamed("ret")
+		if res == nil {
+			res = f.Param(1)
+		}
+		ast.Inspect(f.Body, func(nd ast.Node) bool {
+			as, ok := nd.(*ast.AssignStmt)
+			if !ok || len(as.Lhs) != len(as.Rhs) {
+				return true
+			}
+			for i, l := range as.Lhs {
+				sel, isSel := ast.Unparen(l).(*ast.SelectorExpr)
+				if !isSel || f.RootObj(sel.X) != types.Object(res) || res == nil {
+					continue
+				}
+				if t := f.Info().TypeOf(l); t == nil || !types.Identical(t.Underlying(), types.Typ[types.Bool]) {
+					continue
+				}
+				n++
+				x.Check(name+":"+sel.Sel.Name+":only-set", as.Pos(), f.IsConstBool(as.Rhs[i], true), "", "a capability flag is assigned something other than true: a later capability of the OPEN can clear what an earlier one established (the OPEN is then mis-reported)")
+			}
+			return true
+		})
+	}
+	x.Check("capability-flags-found", 0, n >= 3, "", "expected the assignments of fbasn, mp4 and mp6")
 }
 
 // c16ReadAhead: the decoders take from the connection exactly the bytes of the message they decode. The reader they
@@ -103,8 +145,30 @@ func c16ReadAhead(p *chk.Prog, r *chk.Report) {
 				continue
 			}
 			n++
-			var stack []ast.Node
 			bad := ""
+			// the reader under its other names: `r := io.Reader(conn)`, `r := conn`
+			tracked := map[types.Object]bool{pv: true}
+			for changed := true; changed; {
+				changed = false
+				ast.Inspect(f.Body, func(nd ast.Node) bool {
+					as, isAs := nd.(*ast.AssignStmt)
+					if !isAs || len(as.Lhs) != len(as.Rhs) {
+						return true
+					}
+					for i, l := range as.Lhs {
+						lid, isId := l.(*ast.Ident)
+						if !isId || tracked[f.ObjOf(lid)] || f.ObjOf(lid) == nil {
+							continue
+						}
+						if src := readerAlias(f, as.Rhs[i]); src != nil && tracked[f.ObjOf(src)] {
+							tracked[f.ObjOf(lid)] = true
+							changed = true
+						}
+					}
+					return true
+				})
+			}
+			var stack []ast.Node
 			ast.Inspect(f.Body, func(nd ast.Node) bool {
 				if nd == nil {
 					stack = stack[:len(stack)-1]
@@ -112,13 +176,23 @@ func c16ReadAhead(p *chk.Prog, r *chk.Report) {
 				}
 				stack = append(stack, nd)
 				id, isId := nd.(*ast.Ident)
-				if !isId || f.ObjOf(id) != types.Object(pv) || len(stack) < 2 {
+				if !isId || !tracked[f.ObjOf(id)] || len(stack) < 2 {
 					return true
 				}
-				switch par := stack[len(stack)-2].(type) {
+				k := len(stack) - 2
+				for k > 0 {
+					if _, isP := stack[k].(*ast.ParenExpr); !isP {
+						break
+					}
+					k--
+				}
+				switch par := stack[k].(type) {
 				case *ast.CallExpr:
 					if par.Fun == ast.Expr(id) {
 						return true
+					}
+					if tv, has := f.Info().Types[par.Fun]; has && tv.IsType() {
+						return true // a conversion: followed as another name of the reader above
 					}
 					fo, _ := f.Callee(par).(*types.Func)
 					switch {
@@ -135,8 +209,8 @@ func c16ReadAhead(p *chk.Prog, r *chk.Report) {
 					}
 				case *ast.KeyValueExpr:
 					ok := false
-					if len(stack) >= 3 {
-						if cl, isCl := stack[len(stack)-3].(*ast.CompositeLit); isCl {
+					if k >= 1 {
+						if cl, isCl := stack[k-1].(*ast.CompositeLit); isCl {
 							if t := f.Info().TypeOf(cl); t != nil && strings.HasSuffix(t.String(), "io.LimitedReader") {
 								ok = true
 							}
@@ -147,16 +221,18 @@ func c16ReadAhead(p *chk.Prog, r *chk.Report) {
 					}
 				case *ast.AssignStmt:
 					for _, l := range par.Lhs {
-						if l == ast.Expr(id) {
-							bad = "a reassignment of the reader"
+						if l == ast.Expr(id) && par.Tok != token.DEFINE {
+							// re-binding a tracked name to anything but another name of the reader
+							for i, l2 := range par.Lhs {
+								if l2 == l && i < len(par.Rhs) {
+									if src := readerAlias(f, par.Rhs[i]); src == nil || !tracked[f.ObjOf(src)] {
+										bad = "a reassignment of the reader"
+									}
+								}
+							}
 						}
 					}
-					for _, rh := range par.Rhs {
-						if rh == ast.Expr(id) {
-							bad = "a copy into another variable"
-						}
-					}
-				case *ast.BinaryExpr: // r == nil
+				case *ast.BinaryExpr: // r == nil, s.conn == conn
 				default:
 					bad = fmt.Sprintf("%T", par)
 				}
@@ -533,6 +609,17 @@ func c16Open(p *chk.Prog, r *chk.Report) {
 			continue
 		}
 		lit := msgLiteral(f)
+		if lit == nil && name == "sendKeepalive" {
+			// the constant message kept as its wire bytes: w.Write(K[:]) of a package-level byte array that nothing writes
+			if tmpl, pos, okT := constBytesWritten(p, f); okT {
+				ok := len(tmpl) == 19 && tmpl[16] == 0 && tmpl[17] == 19 && tmpl[18] == want
+				for i := 0; i < 16 && ok; i++ {
+					ok = tmpl[i] == 0xff
+				}
+				x.Check(name+":header", pos, ok, "", "the message header is not {16 x 0xff, length, type "+itoa(want)+"} (for KEEPALIVE: length = packed size)")
+				continue
+			}
+		}
 		if lit == nil {
 			x.Fail(name+":message-literal", f.Pos(), "no message struct literal")
 			continue
@@ -1233,6 +1320,18 @@ func c16Read(p *chk.Prog, r *chk.Report) {
 						hdrSize = chk.PackedSize(t)
 					}
 					okN = c == hdrSize && hdrSize == 19
+				} else if b := f.MatchNew("int64(L) - C", nExpr); b != nil {
+					// the length handed back by a header-reading helper: on its success exit it is the Len of the header
+					// struct read first
+					var hdrExpr ast.Expr
+					isLen := isOrSucceedsAs(f, g, "H.Len", chk.H("H", func(e ast.Expr) bool { hdrExpr = e; return true }))
+					if isLen(b["L"]) && hdrExpr != nil {
+						c, _ := constInt(f, b["C"])
+						if t := info.TypeOf(hdrExpr); t != nil {
+							hdrSize = chk.PackedSize(t)
+						}
+						okN = c == hdrSize && hdrSize == 19
+					}
 				}
 			} else {
 				okN = f.MatchNew("int64(H.Len)", nExpr) != nil
@@ -1422,9 +1521,13 @@ func c16Read(p *chk.Prog, r *chk.Report) {
 		ok := false
 		if hdrT != nil && openT != nil {
 			want := chk.PackedSize(hdrT) + chk.PackedSize(openT)
-			for _, e := range g.EdgesImplying(g.GPat(true, "H.Len < C")) {
+			isLen := isOrSucceedsAs(f, g, "H.Len")
+			for _, e := range g.EdgesImplying(g.GPat(true, "L < C", chk.H("L", isLen))) {
 				cond := e.B.Nodes[len(e.B.Nodes)-1].(ast.Expr)
-				b := f.MatchNew("H.Len < C", cond)
+				b := f.MatchNew("L < C", cond)
+				if b == nil {
+					continue
+				}
 				c, okc := constInt(f, b["C"])
 				ok = okc && c == want && !g.BranchAlways(e, func(m ast.Node) bool { return isErrReturn2(f, m) }).Found
 				if !ok {
@@ -1871,4 +1974,110 @@ func c16Tolerant(p *chk.Prog, r *chk.Report) {
 		x.Check("readCapabilities:error-is-read-or-leftover", rt.Pos(), ok, "", "readCapabilities refuses an OPEN for a reason other than a failed read or leftover payload bytes (e.g. an unknown capability code): a peer announcing a capability this implementation does not know can never establish the session")
 	}
 	x.Check("readCapabilities:error-returns-found", f.Pos(), n >= 3, "", "unexpected shape")
+}
+
+// readerAlias: e is a plain name of a reader or a conversion of one (io.Reader(conn)): it returns that name.
+func readerAlias(f *chk.Fn, e ast.Expr) *ast.Ident {
+	e = ast.Unparen(e)
+	if c, isC := e.(*ast.CallExpr); isC && len(c.Args) == 1 {
+		if tv, has := f.Info().Types[c.Fun]; has && tv.IsType() {
+			e = ast.Unparen(c.Args[0])
+		}
+	}
+	id, _ := e.(*ast.Ident)
+	return id
+}
+
+// constBytesWritten: f's only write is W.Write(K[:]) (or W.Write(K)) of a package-level byte array / slice K that is
+// initialised by a literal of constants and never stored into anywhere in its package. It returns the bytes.
+func constBytesWritten(p *chk.Prog, f *chk.Fn) ([]int, token.Pos, bool) {
+	g := f.Graph()
+	ws := g.FindPat("W.Write(B)", chk.H("W", isParamIdx(f, 0)))
+	if len(ws) != 1 || len(g.FindPat("binary.Write(ETC)")) != 0 {
+		return nil, 0, false
+	}
+	arg := ast.Unparen(ws[0].Node.(*ast.CallExpr).Args[0])
+	if sl, isSl := arg.(*ast.SliceExpr); isSl && sl.Low == nil && sl.High == nil {
+		arg = ast.Unparen(sl.X)
+	}
+	id, isId := arg.(*ast.Ident)
+	if !isId {
+		return nil, 0, false
+	}
+	v, isVar := f.ObjOf(id).(*types.Var)
+	if !isVar || v.Pkg() == nil || v.Parent() != v.Pkg().Scope() {
+		return nil, 0, false
+	}
+	var init ast.Expr
+	for _, file := range f.Pkg.Syntax {
+		for _, d := range file.Decls {
+			gd, ok := d.(*ast.GenDecl)
+			if !ok || gd.Tok != token.VAR {
+				continue
+			}
+			for _, sp := range gd.Specs {
+				vs := sp.(*ast.ValueSpec)
+				for i, nm := range vs.Names {
+					if f.Pkg.TypesInfo.Defs[nm] == types.Object(v) && i < len(vs.Values) {
+						init = vs.Values[i]
+					}
+				}
+			}
+		}
+	}
+	cl, isCl := ast.Unparen(init).(*ast.CompositeLit)
+	if !isCl {
+		return nil, 0, false
+	}
+	var out []int
+	for _, el := range cl.Elts {
+		if _, isKV := el.(*ast.KeyValueExpr); isKV {
+			return nil, 0, false
+		}
+		c := f.Pkg.TypesInfo.Types[el].Value
+		if c == nil || c.Kind() != constant.Int {
+			return nil, 0, false
+		}
+		n, _ := constant.Int64Val(c)
+		out = append(out, int(n))
+	}
+	if at, isArr := v.Type().Underlying().(*types.Array); isArr {
+		for int64(len(out)) < at.Len() {
+			out = append(out, 0)
+		}
+	}
+	// nothing in the package stores into it or takes its address
+	written := false
+	for _, pf := range p.FuncsIn(natPkg) {
+		if pf.Body == nil {
+			continue
+		}
+		ast.Inspect(pf.Body, func(n ast.Node) bool {
+			switch st := n.(type) {
+			case *ast.AssignStmt:
+				for _, l := range st.Lhs {
+					if pf.RootObj(l) == types.Object(v) {
+						written = true
+					}
+				}
+			case *ast.IncDecStmt:
+				if pf.RootObj(st.X) == types.Object(v) {
+					written = true
+				}
+			case *ast.UnaryExpr:
+				if st.Op == token.AND && pf.RootObj(st.X) == types.Object(v) {
+					written = true
+				}
+			case *ast.CallExpr:
+				if fid, isF := st.Fun.(*ast.Ident); isF && fid.Name == "copy" && len(st.Args) == 2 && pf.RootObj(st.Args[0]) == types.Object(v) {
+					written = true
+				}
+			}
+			return !written
+		})
+	}
+	if written {
+		return nil, 0, false
+	}
+	return out, cl.Pos(), true
 }
